@@ -83,6 +83,21 @@ def main():
         # seeded general histories
         for i in range(160 if thorough else 50):
             hists.append(histories.gen_history(ck.rng, i, thorough, many=(prop == "C04" and i % 3 != 0)))
+        if prop == "C04":
+            # wide histories: more recipients than the limit, with configured concurrency and announced limit on both sides of
+            # each other and of 127/128 (the announcement is one byte): outstanding attempts never exceed the smaller of the two
+            wi = 0
+            for chan, conc, ann, nr in ((1, 255, 128, 140), (0, 255, 128, 140), (1, 150, 127, 140), (1, 200, 255, 210), (1, 255, 255, 30), (0, 130, 200, 140)) + \
+                                       (((1, 255, 200, 215), (0, 255, 254, 255), (1, 129, 128, 135)) if thorough else ()):
+                wi += 1
+                dom = b"local.test" if chan == 0 else b"remote.test"
+                rc = [b"w%dr%d@%s" % (wi, k, dom) for k in range(nr)]
+                oc = {r.decode(): "K" for r in rc}
+                oc["ws%d@origin.test" % wi] = "K"
+                hists.append({"id": "wide-%d-%d-%d-%d" % (chan, conc, ann, nr), "seed": 5000 + wi, "strict": 0, "drain_rounds": 40,
+                              "messages": [{"body": b"Subject: w\n\nwide\n", "sender": b"ws%d@origin.test" % wi, "rcpts": rc}], "outcomes": oc,
+                              "script": [("inject", 0), ("answer", "lifo"), ("answer", "fifo"), ("answer", "random")],
+                              "conc": (conc, 20) if chan == 0 else (10, conc), "announce": (ann, 120) if chan == 0 else (120, ann)})
         # crash points of the reference history: before every mutating call of the daemon / of the cleaner
         ref = reference_history(900)
         nsend, calls, _ = count_mutating(tree, ck, ref, "qmail-send")
